@@ -72,6 +72,8 @@ def cases(tier, seed):
     out.append(('robust_value_lp', dict(shape='contract_storage', kw=dict(T=2), split='robust', level='A', slp=dict(S=1))))
     out.append(('robust_value_mip', dict(shape='orderbook', kw=dict(T=2, full_exec=True, orders=((0, 2, 2.0), (1, 2, -1.5))), split='robust', level='A', slp=dict(S=1))))
     out.append(('slp_contract_storage', dict(shape='contract_storage', kw=dict(T=3, wacc=True), split='slp', level='A', slp=dict(boundary=2, S=1))))
+    # the value of a split problem optimised a second time (same object): concatenation / sum of THAT call's interval answers (C03's recorder)
+    out.append(('split_problem_optimised_twice', common.delegated('c03', kind='split', shape='two_node', kw=dict(T=4, freq='12h'), split='d')))
     return out
 
 
